@@ -5,6 +5,12 @@ every translator that renames a function's parameters to model names is then exe
 
 import numpy as np
 
+# module-level floats that share their names with formal parameters of the functions below: a translator must
+# resolve a name to the function's own parameter / local first, and to a module constant only otherwise
+p = 0.25
+q = 0.5
+d1 = 1.5
+
 
 def one():
     return 1.0
@@ -82,12 +88,17 @@ def cap(a, b):
     return np.minimum(a, b)
 
 
+def swp(x, y):
+    x, y = y, x
+    return 2 * x - y
+
+
 def mad(x, p, y):
     return x * p + y
 
 
 ARITY = {"one": 0, "two": 0, "id": 1, "neg": 1, "dbl": 1, "inc": 1, "step": 1, "dsum": 1, "loopinc": 1, "dflt": 1,
-         "add": 2, "sub": 2, "mul": 2, "sel": 2, "cut": 2, "cap": 2, "mad": 3}
+         "add": 2, "sub": 2, "mul": 2, "sel": 2, "cut": 2, "cap": 2, "swp": 2, "mad": 3}
 FNS = {n: globals()[n] for n in ARITY}
 
 
